@@ -52,7 +52,15 @@ def _derived():
     return out
 
 
-ALL_INTERVAL_SETS = INTERVAL_SETS + _derived()  # 40 sets
+# ranges written out of order within a day, a later statement adding an EARLIER range to some of the days, descending triples
+UNSORTED_SETS = [
+    [("mon - fri", ["13:00 - 17:00", "9:00 - 12:00"])],
+    [("mon - fri", ["14:00 - 18:00"]), ("mon, wed", ["8:00 - 12:00"])],
+    [("tue - sat", ["20:00 - 22:00", "12:00 - 14:00", "6:00 - 8:00"])],
+    [("mon - sun", ["22:00 - 6:00", "9:00 - 12:00"])],
+    [("mon - fri", ["9:00 - 17:00"]), ("sun", ["22:00 - 6:00"]), ("mon", ["7:00 - 8:00"])],
+]
+ALL_INTERVAL_SETS = INTERVAL_SETS + _derived() + UNSORTED_SETS  # 45 sets
 
 
 def _h():
@@ -114,7 +122,13 @@ def sb_configs(tier):
     Ls = [0.5, 1, 2.5, 5, 7, 7.5, 10, 11, 13, 15, 20, 25, 30, 35, 50, 55, 60] if tier == "thorough" else [5, 7, 7.5, 15, 25, 50, 60]
     offs = [(0, 0), (8, 13)]
     spans = [180, 1440 + 37, 2 * 1440, 3 * 1440 + 11] if tier == "thorough" else [180, 1440 + 37]
-    return [(L, off, span) for L in Ls for off in offs for span in spans]
+    cfgs = [(L, off, span) for L in Ls for off in offs for span in spans]
+    # the process environment must not matter: the same laws with TZ set to zones whose daylight-saving switch lies inside the
+    # window (4th element = (TZ value, window start))
+    for L in ((60, 15) if tier == "quick" else (60, 30, 15, 7)):
+        cfgs.append((L, (0, 0), 2 * 1440, ("Europe/Berlin", "2025-03-29")))
+        cfgs.append((L, (8, 13), 2 * 1440, ("America/New_York", "2025-11-01")))
+    return cfgs
 
 
 def _call(h, f, *a, **kw):
@@ -133,9 +147,34 @@ def sb_grid(cfg):
     """Scoreboard + Project index<->date conversions on a complete grid; laws of C17."""
     from scriptplan.scheduler.scoreboard import Scoreboard
 
+    if len(cfg) == 4:
+        # evaluate under another process time zone (restored afterwards; the worker is single-threaded)
+        import os
+        import time as _time
+        tzname, day = cfg[3]
+        old_tz = os.environ.get("TZ")
+        os.environ["TZ"] = tzname
+        _time.tzset()
+        try:
+            r = _sb_grid(cfg[:3], datetime.strptime(day, "%Y-%m-%d"))
+        finally:
+            if old_tz is None:
+                os.environ.pop("TZ", None)
+            else:
+                os.environ["TZ"] = old_tz
+            _time.tzset()
+        r["cfg"] = cfg
+        return r
+    return _sb_grid(cfg, BASE)
+
+
+def _sb_grid(cfg, base):
+    from scriptplan.scheduler.scoreboard import Scoreboard
+    import math
+
     L, (oh, om), span = cfg
     gran = int(round(L * 60))   # L may be a fraction of a minute (7.5 min = 450 s)
-    start = BASE + timedelta(hours=oh, minutes=om)
+    start = base + timedelta(hours=oh, minutes=om)
     end = start + timedelta(minutes=span)
     sb = Scoreboard(start, end, gran, 2)
     proj = _fresh_project(start, end, gran)
@@ -226,6 +265,41 @@ def sb_grid(cfg):
     if ps != size:
         viol.append(("proj-size", f"Project.scoreboardSize()={ps} Scoreboard.size={size}"))
     # keep at most a few examples per clause
+    seen, short = {}, []
+    for c, d in viol:
+        seen[c] = seen.get(c, 0) + 1
+        if seen[c] <= 2:
+            short.append((c, d))
+    return {"cfg": cfg, "digest": h.hexdigest(), "calls": calls, "viol": short, "viol_counts": seen}
+
+
+def far_grid(cfg):
+    """cfg = L minutes: a window of 90 years; index <-> date laws at ~2000 indices spread over it (and around 2^31 seconds,
+    where 32-bit arithmetic wraps): the window extension of a project with a very large effort reaches such indices."""
+    from scriptplan.scheduler.scoreboard import Scoreboard
+
+    L = cfg
+    gran = int(L * 60)
+    start = BASE
+    end = BASE + timedelta(days=90 * 365)
+    sb = Scoreboard(start, end, gran, 2)
+    proj = _fresh_project(start, end, gran)
+    h = _h()
+    viol, calls = [], 0
+    size = sb.size
+    wrap = (2 ** 31) // gran
+    idxs = sorted({i for i in list(range(0, size, max(1, size // 2000))) + list(range(wrap - 3, wrap + 4)) + [size - 2, size - 1] if 0 <= i < size})
+    for i in idxs:
+        exp = start + timedelta(seconds=i * gran)
+        for name, obj in (("Scoreboard", sb), ("Project", proj)):
+            r = _call(h, obj.idxToDate, i)
+            calls += 1
+            if r != ("ok", exp):
+                viol.append(("far-idx2date", f"{name}.idxToDate({i})={r} expected {exp} (L={L}min, {i * gran} s after the start)"))
+            r = _call(h, obj.dateToIdx, exp)
+            calls += 1
+            if r != ("ok", i):
+                viol.append(("far-roundtrip", f"{name}.dateToIdx({exp})={r} expected {i}"))
     seen, short = {}, []
     for c, d in viol:
         seen[c] = seen.get(c, 0) + 1
